@@ -61,7 +61,7 @@ CHECKS = {
          "Sound static analysis of structural necessary conditions: MarshalTokenKeyPSSOID's builder term equals the prescribed RSASSA-PSS SPKI tree (SHA-384, MGF1-SHA-384, salt 48; OIDs by value, single initialisation); UnmarshalTokenKey performs the checked SEQ{SEQ,BITSTRING{SEQ{INT,INT}}} reads and returns the integers read; every issuer's TokenKeyID is a freshly computed SHA-256 of its serialized public key; type-1/2/5 requests carry the last byte of the id; the type-3 name key id is SHA-256 of the EncapKey encoding; no key type's Marshal returns a cache seeded outside Marshal. Does not decide DER round trips for every modulus/exponent (encoding/asn1, cryptobyte).",
          "Trusts go/ssa, this checker's term and reader extractors, encoding/asn1 and cryptobyte as documented.",
          "DESIGN.md §4 C18"),
- "C19": ("bit-provenance abstract interpretation on SSA (each bit is 0, 1 or a named input bit; constant shifts, masks, ORs, width conversions exact) composed across AppendVarint and ConsumeVarint; guard-dominance facts; linear range proving (Fourier-Motzkin) of index/slice obligations and of the returned view (offset, length); may-write effect summaries",
+ "C19": ("bit-provenance abstract interpretation on SSA (each bit is 0, 1 or a named input bit; constant shifts, masks, ORs, width conversions exact) composed across AppendVarint and ConsumeVarint; guard-dominance facts; linear range proving (Fourier-Motzkin) of index/slice obligations and of the returned view (offset, length); may-write effect summaries; for a decoder driven by a computed size (n = 1 << (b[0]>>6)): abstract interpretation of ConsumeVarint with trace partitioning on the two class bits and the available length, payload bits symbolic",
          "Sound static analysis deciding the varint clauses for all values at once: both writers branch on the same ordered thresholds 2^6-1/2^14-1/2^30-1/2^62-1 with sizes 1/2/4/8 and reject larger values (first match wins, so the shortest form); for each class the decoder's expression over the encoder's bytes is the identity on v and the length reported equals the bytes appended; decoded values stay below 2^(8n-2) for arbitrary input; every b[k] is read behind len(b) >= n and failure (0,-1) occurs exactly on the negated guard; Consume*Bytes return b[prefix:prefix+size] and prefix+size (linear identities), fail exactly when that exceeds len(b), with no narrowing (also with 32-bit int); Append*Bytes layouts mirror them and the uint8 length is narrowed only after the check; the appenders write the destination only through append.",
          "Trusts go/ssa, this checker's bit domain, range prover and effect analysis; append does not modify existing elements; encoding/binary as documented. An encoder not written as append of byte expressions is outside the bit domain and is reported as undecided (failing).",
          "DESIGN.md §4 C19"),
